@@ -11,8 +11,8 @@ PROP = dict(
               "Pops.C14_quantile_powerlaw_pareto_fails", "Pops.C14_no_window_example", "Pops.C14_parameters_rejected", "Pops.C14_quota_approx", "Pops.C14_quota_abs", "Pops.C14_quota_surplus", "Pops.C14_picks_in_window_approx", "Pops.C14_equal_share_approx", "Pops.C14_mirror_approx"],
     commands=["det.*"],
     runs={
-        "quick": [("h_det", "witness", 0, 6), ("h_det", "alloc", 0, 400), ("h_det", "factory", 0, 200), ("h_det", "quantile", 0, 600)],
-        "thorough": [("h_det", "witness", 0, 6), ("h_det", "alloc", 0, 30000), ("h_det", "factory", 0, 10000), ("h_det", "quantile", 0, 30000)],
+        "quick": [("h_det", "witness", 0, 7), ("h_det", "alloc", 0, 400), ("h_det", "factory", 0, 200), ("h_det", "quantile", 0, 600)],
+        "thorough": [("h_det", "witness", 0, 7), ("h_det", "alloc", 0, 30000), ("h_det", "factory", 0, 10000), ("h_det", "quantile", 0, 30000)],
     },
     exhaustive={"quick": False, "thorough": False},
     exhaustive_note={"quick": "all ten laws in equal shares (law = case index mod 10); everything else sampled",
@@ -24,7 +24,7 @@ PROP = dict(
          "(exact bit patterns) and the full pick sequence for 2..4 source cells in sequence with N in 1..320 (20% partial "
          "runs, 30% revisits, 12% repeated runs on an unchanged source cell); non-trivial = window of >= 9 cells, >= 2 source "
          "cells, >= 10 calls; quantile case = one law with icdf at 6 percentages + 4 rejected ones, pdf at 12 points, "
-         "GammaKernel::cdf at 4 points (always non-trivial); witness = the fixed inputs of F21, F23, F25; distinct = blake2b of "
+         "GammaKernel::cdf at 4 points (always non-trivial); witness = the fixed inputs of F21, F23, F25, F33; distinct = blake2b of "
          "the case's protocol lines; factory case = the same protocol for a kernel built from a Config with "
          "dispersal_stochasticity off through create_natural_kernel / create_anthro_kernel / create_dynamic_kernel "
          "(law = index mod 10, natural or anthropogenic side and direct or mixed construction alternate, ns != ew in ~95%), "
